@@ -439,21 +439,27 @@ theorem always_usageRec (n : String) : Always (guardH .usage n) [] (usageRec n) 
     simp only []
     have hget : (Req.get ⟨.usage, n⟩, Resp.obj u) ∈ ([] : Hist) ++ [(Req.get ⟨.usage, n⟩, Resp.obj u)] := mem_snoc_self _ _
     split
-    · trivial
+    · refine ⟨by simp [guardH], ?_⟩
+      intro y
+      cases y with
+      | list l => cases l <;> trivial
+      | _ => trivial
     · split
-      · refine ⟨by simp [guardH], ?_⟩
-        intro y
-        cases y with
-        | notFound => exact always_usageUsed n _ u (List.mem_append_left _ hget) (.inr (.inr (mem_snoc_self _ _)))
-        | _ => trivial
-      · rename_i hc
-        refine always_usageUsed n _ u hget ?_
-        by_cases hr : u.ref = ""
-        · exact .inl hr
-        · refine .inr (.inl ?_)
-          cases hf : u.flag with
-          | false => rfl
-          | true => exact absurd ⟨hr, hf⟩ hc
+      · trivial
+      · split
+        · refine ⟨by simp [guardH], ?_⟩
+          intro y
+          cases y with
+          | notFound => exact always_usageUsed n _ u (List.mem_append_left _ hget) (.inr (.inr (mem_snoc_self _ _)))
+          | _ => trivial
+        · rename_i hc
+          refine always_usageUsed n _ u hget ?_
+          by_cases hr : u.ref = ""
+          · exact .inl hr
+          · refine .inr (.inl ?_)
+            cases hf : u.flag with
+            | false => rfl
+            | true => exact absurd ⟨hr, hf⟩ hc
   | _ => trivial
 
 /-- every modelled reconcile respects its guard on every path -/
